@@ -14,7 +14,7 @@ import Deepali.Model.Losses
 namespace Deepali.Drv
 open Deepali Deepali.Proto Deepali.Loss
 
-def lReduction : Reader Reduction := do
+private def lReduction : Reader Reduction := do
   let t ← tok
   match t with
   | "none" => pure .none
@@ -22,16 +22,16 @@ def lReduction : Reader Reduction := do
   | "sum" => pure .sum
   | _ => throw s!"bad-op:reduction:{t}"
 
-def lNats : Reader (List Nat) := do
+private def lNats : Reader (List Nat) := do
   let k ← nat
   listOf k nat
 
-def lTensor : Reader (T Rat) := do
+private def lTensor : Reader (T Rat) := do
   let shape ← lNats
   let a := (← listOf (prod shape) rat).toArray
   pure ⟨shape, fun i => a.getD i 0⟩
 
-def lOpt {β} (r : Reader β) : Reader (Option β) := do
+private def lOpt {β} (r : Reader β) : Reader (Option β) := do
   let t ← tok
   match t with
   | "-" => pure none
@@ -40,13 +40,13 @@ def lOpt {β} (r : Reader β) : Reader (Option β) := do
 
 private def fmtRats (xs : List Rat) : String := " ".intercalate (xs.map fmtRat)
 
-def fmtRes : Except String (List Rat) → String
+private def fmtRes : Except String (List Rat) → String
   | .ok v => fmtRats v
   | .error e => e
 
 /-- sorted table of `(key, value)`; the entry whose key is nearest to `a` is used when it lies
     within `tol·(1+|a|)` of `a`. -/
-def lTable : Reader (Array (Rat × Rat)) := do
+private def lTable : Reader (Array (Rat × Rat)) := do
   let n ← nat
   let mut out : Array (Rat × Rat) := #[]
   for _ in [0:n] do
@@ -55,16 +55,16 @@ def lTable : Reader (Array (Rat × Rat)) := do
     out := out.push (k, v)
   pure out
 
-def ratAbs (a : Rat) : Rat := if a < 0 then -a else a
+private def ratAbs (a : Rat) : Rat := if a < 0 then -a else a
 
 /-- binary search for the first index with key ≥ a. -/
-partial def lowerBound (tbl : Array (Rat × Rat)) (a : Rat) (lo hi : Nat) : Nat :=
+private partial def lowerBound (tbl : Array (Rat × Rat)) (a : Rat) (lo hi : Nat) : Nat :=
   if lo < hi then
     let mid := (lo + hi) / 2
     if (tbl.getD mid (0, 0)).1 < a then lowerBound tbl a (mid + 1) hi else lowerBound tbl a lo mid
   else lo
 
-def lookupNear (tbl : Array (Rat × Rat)) (tol : Rat) (a : Rat) : Option Rat :=
+private def lookupNear (tbl : Array (Rat × Rat)) (tol : Rat) (a : Rat) : Option Rat :=
   let i := lowerBound tbl a 0 tbl.size
   let cand := [i - 1, i].filter (fun j => j < tbl.size)
   let best := cand.foldl (fun (acc : Option (Rat × Rat)) j =>
@@ -77,7 +77,7 @@ def lookupNear (tbl : Array (Rat × Rat)) (tol : Rat) (a : Rat) : Option Rat :=
   | some (d, v) => if d ≤ tol * (1 + ratAbs a) then some v else none
   | none => none
 
-def lPointwiseKind : Reader (Pointwise Rat) := do
+private def lPointwiseKind : Reader (Pointwise Rat) := do
   let t ← tok
   match t with
   | "ssd" => pure .ssd
@@ -87,7 +87,7 @@ def lPointwiseKind : Reader (Pointwise Rat) := do
   | _ => throw s!"bad-op:pointwise:{t}"
 
 /-- `loss.pointwise kind red X Y optMask optNorm` -/
-def lossPointwise : Reader String := do
+private def lossPointwise : Reader String := do
   let kind ← lPointwiseKind
   let red ← lReduction
   let x ← lTensor
@@ -97,7 +97,7 @@ def lossPointwise : Reader String := do
   pure (fmtRes (pointwiseLoss kind red x y m norm))
 
 /-- `loss.ncc red X Y optMask eps` -/
-def lossNcc : Reader String := do
+private def lossNcc : Reader String := do
   let red ← lReduction
   let x ← lTensor
   let y ← lTensor
@@ -106,7 +106,7 @@ def lossNcc : Reader String := do
   pure (fmtRes (nccLoss red x y m eps))
 
 /-- `loss.lcc red X Y optMask ks eps` -/
-def lossLcc : Reader String := do
+private def lossLcc : Reader String := do
   let red ← lReduction
   let x ← lTensor
   let y ← lTensor
@@ -116,7 +116,7 @@ def lossLcc : Reader String := do
   pure (fmtRes (lccLoss red x y m ks eps))
 
 /-- `loss.wlcc red X Y optMask optSourceMask optTargetMask ks eps` -/
-def lossWlcc : Reader String := do
+private def lossWlcc : Reader String := do
   let red ← lReduction
   let x ← lTensor
   let y ← lTensor
@@ -128,7 +128,7 @@ def lossWlcc : Reader String := do
   pure (fmtRes (wlccLoss red x y m sm tm ks eps))
 
 /-- `loss.dice_score red X Y optW eps` / `loss.dice_loss …` -/
-def lossDice (isLoss : Bool) : Reader String := do
+private def lossDice (isLoss : Bool) : Reader String := do
   let red ← lReduction
   let x ← lTensor
   let y ← lTensor
@@ -137,7 +137,7 @@ def lossDice (isLoss : Bool) : Reader String := do
   pure (fmtRes (if isLoss then diceLoss red x y w eps else diceScore red x y w eps))
 
 /-- `loss.tversky_index red X Y optW alpha beta eps binarize` -/
-def lossTverskyIndex : Reader String := do
+private def lossTverskyIndex : Reader String := do
   let red ← lReduction
   let x ← lTensor
   let y ← lTensor
@@ -148,8 +148,10 @@ def lossTverskyIndex : Reader String := do
   let b ← bool
   pure (fmtRes (tverskyIndex red x y w alpha beta eps b))
 
-/-- `loss.tversky_loss red X Y optW alpha beta eps optGamma` -/
-def lossTverskyLoss : Reader String := do
+/-- `loss.tversky_loss red X Y optW alpha beta eps binarize optGamma powTable`: the power
+    `t ↦ t^gamma` is exact (`npow`) for an integral exponent, otherwise the nearest entry of the
+    table (keys: harness values of `1 − TI`, tolerance 1e-3 — `pow` is evaluated in float32). -/
+private def lossTverskyLoss : Reader String := do
   let red ← lReduction
   let x ← lTensor
   let y ← lTensor
@@ -157,14 +159,21 @@ def lossTverskyLoss : Reader String := do
   let alpha ← rat
   let beta ← rat
   let eps ← rat
+  let b ← bool
   let g ← lOpt rat
-  pure (fmtRes (tverskyLoss red x y w alpha beta eps g))
+  let tbl ← lTable
+  let pw : Rat → Rat :=
+    match g with
+    | some gv => if gv.den = 1 ∧ 0 ≤ gv.num then npow gv.num.toNat
+                 else fun a => (lookupNear tbl (1 / 1000) a).getD 0
+    | none => id
+  pure (fmtRes (tverskyLoss pw red x y w alpha beta eps b g))
 
 /-- `loss.mi normalized X Y optMask B centres(B) tiny twoSigmaSq norm tol expTable logTable`.
     `exp` and `log` are the table functions (nearest key within `tol`).  Every argument the model
     hands to `exp`/`log` is first checked to be in the tables (`err:table:exp|log` otherwise), so
     the tabulated values are tied to the model's own arguments. -/
-def lossMi : Reader String := do
+private def lossMi : Reader String := do
   let normalized ← bool
   let x ← lTensor
   let y ← lTensor
@@ -195,7 +204,7 @@ def lossMi : Reader String := do
     pure (fmtRat (miLossCore win lg tiny normalized N B S cen xm ym))
 
 /-- `loss.reduce red n v1 … vn optMask(n values)` — reduce_loss alone. -/
-def lossReduce : Reader String := do
+private def lossReduce : Reader String := do
   let red ← lReduction
   let n ← nat
   let a := (← listOf n rat).toArray
@@ -204,7 +213,7 @@ def lossReduce : Reader String := do
   pure (fmtRats (reduceLoss red n (fun i => a.getD i 0) mm))
 
 /-- `loss.masked_check lossShape maskShape` → `ok` or the error of masked_loss. -/
-def lossMaskedCheck : Reader String := do
+private def lossMaskedCheck : Reader String := do
   let ls ← lNats
   let ms ← lNats
   match maskedLossCheck ls ms with
@@ -212,7 +221,7 @@ def lossMaskedCheck : Reader String := do
   | .error e => pure e
 
 /-- `loss.pool sum|mean X ks` — the avg_pool model alone (primitive conformance). -/
-def lossPool : Reader String := do
+private def lossPool : Reader String := do
   let kind ← tok
   let x ← lTensor
   let ks ← lNats
@@ -224,14 +233,14 @@ def lossPool : Reader String := do
     pure (fmtRats ((List.range x.numel).map f))
 
 /-- `loss.max_difference_sq X Y` — norm computed by `NormalizedPairwiseImageLoss(source, target)`. -/
-def lossMaxDiffSq : Reader String := do
+private def lossMaxDiffSq : Reader String := do
   let x ← lTensor
   let y ← lTensor
   let d := maxDifference x.numel y.numel x.data y.data
   pure (fmtRat (d * d))
 
 /-- `loss.expand lossShape M` — broadcasting of a mask to the loss shape. -/
-def lossExpand : Reader String := do
+private def lossExpand : Reader String := do
   let ls ← lNats
   let m ← lTensor
   pure (fmtRats ((List.range (prod ls)).map (expandAs ls m)))
